@@ -714,4 +714,345 @@ theorem reorganize_spec {c : RCfg} (hrb : 0 < c.rb) (hle : c.rb ≤ c.w) (h : RH
     have : (h.bk h.cur).isEmpty = true := by rw [e]; rfl
     exact hemp this
 
+
+/-! ### the public operations -/
+
+theorem back?_mem {α : Type} (b : Array α) (hne : b ≠ #[]) : ∃ v, b.back? = some v ∧ v ∈ b ∧ b.toList = b.pop.toList ++ [v] := by
+  have hpos : 0 < b.size := by
+    cases b with
+    | mk l => cases l with
+      | nil => exact absurd rfl hne
+      | cons x xs => simp
+  refine ⟨b[b.size - 1], ?_, Array.getElem_mem _, ?_⟩
+  · simp [Array.back?, Array.getElem?_eq_getElem (show b.size - 1 < b.size by omega)]
+  · have := array_eq_pop_push' b hpos
+    conv => lhs; rw [this]
+    simp
+where
+  array_eq_pop_push' {α : Type} (a : Array α) (h : 0 < a.size) : a = a.pop.push (a[a.size - 1]'(by omega)) := by
+    apply Array.ext
+    · simp; omega
+    · intro i h1 h2
+      by_cases hi : i < a.size - 1
+      · rw [Array.getElem_push_lt (by simpa using hi)]; simp
+      · have : i = a.size - 1 := by omega
+        subst this
+        simp [Array.getElem_push]
+
+/-- the state after `reorganize_()` satisfies the full invariant for the rank of any element of the
+current bucket -/
+theorem rinv_after_reorg {c : RCfg} (hrb : 0 < c.rb) (h h' : RH c) (fr : Option (BitVec c.w)) (hi : RInv c h fr)
+    (hp : ReorgPost c h h') (v : RVal c.w) (hv : v ∈ h'.bk h'.cur) (hN : h'.cur < numBuckets c) :
+    RInv c h' (some (rk c v)) ∧ ∀ u ∈ h'.contents, (rk c v).toNat ≤ (rk c u).toNat := by
+  have hmin := first_bucket_min hrb h' hp.core h'.cur hp.core.curR hN hp.before v hv
+  obtain ⟨l, b⟩ := hp.core.el h'.cur hN (by simp) v hv
+  refine ⟨⟨hp.core, by rw [hp.size_eq, hi.cnt, hp.perm.length_eq], ?_⟩, hmin⟩
+  exact ⟨l, b, hmin⟩
+
+theorem top_spec {c : RCfg} (hrb : 0 < c.rb) (hle : c.rb ≤ c.w) (h : RH c) (fr : Option (BitVec c.w))
+    (hi : RInv c h fr) (hne : h.contents ≠ []) :
+    ∃ h' v, h.top = some (h', v) ∧ RInv c h' (some (rk c v)) ∧ h'.contents.Perm h.contents ∧
+      v ∈ h'.contents ∧ ∀ u ∈ h'.contents, (rk c v).toNat ≤ (rk c u).toNat := by
+  obtain ⟨h', e1, hp⟩ := reorganize_spec hrb hle h fr hi hne
+  have hN : h'.cur < numBuckets c := Nat.lt_of_lt_of_le hp.core.curR (radix_le_numBuckets c hrb hle)
+  have hB : h'.cur < h'.buckets.size := by rw [hp.core.nbB]; exact hN
+  obtain ⟨v, b1, b2, _⟩ := back?_mem (h'.bk h'.cur) hp.ne
+  obtain ⟨r1, r2⟩ := rinv_after_reorg hrb h h' fr hi hp v b2 hN
+  refine ⟨h', v, ?_, r1, hp.perm, (mem_contents_bk h' hp.core v).mpr ⟨_, hN, b2⟩, r2⟩
+  unfold RH.top
+  simp only [Option.bind_eq_bind, e1, Option.bind_some, getElem?_eq_some_getD h'.buckets h'.cur #[] hB, Option.pure_def]
+  have : (h'.buckets.getD h'.cur #[]).back? = some v := b1
+  rw [this]; rfl
+
+theorem contents_set_bucket {c : RCfg} (h : RH c) (k : Nat) (hk : k < h.buckets.size) (b' : Array (RVal c.w))
+    (h2 : RH c) (hb : h2.buckets = h.buckets.set! k b') :
+    (h2.contents ++ (h.bk k).toList).Perm (h.contents ++ b'.toList) := by
+  unfold RH.contents
+  rw [hb]
+  simp only [Array.set!_eq_setIfInBounds, Array.toList_setIfInBounds, List.map_set]
+  have hL : k < (h.buckets.toList.map (·.toList)).length := by simpa using hk
+  have hget : (h.buckets.toList.map (·.toList))[k] = (h.bk k).toList := by
+    simp [RH.bk, Array.getD_eq_getD_getElem?, Array.getElem?_eq_getElem hk]
+  have := flatten_set_perm (h.buckets.toList.map (·.toList)) k hL b'.toList
+  rw [hget] at this
+  exact this
+
+/-- the state after removing elements from the current (first-row) bucket, leaving `b'` -/
+def afterTake {c : RCfg} (h : RH c) (b' : Array (RVal c.w)) (fl : BitArr) (n : Nat) : RH c :=
+  { h with buckets := h.buckets.set! h.cur b', filled := fl, size := n }
+
+theorem take_spec {c : RCfg} (hrb : 0 < c.rb) (h' : RH c) (hcore : RCore c h' none (some h'.cur))
+    (hN : h'.cur < numBuckets c) (hne : h'.bk h'.cur ≠ #[]) (b' : Array (RVal c.w))
+    (hsub : ∀ u ∈ b', u ∈ h'.bk h'.cur) (fl : BitArr) (hfl : fl.WF) (hflnb : fl.nb = h'.filled.nb)
+    (hset : ∀ j, fl.isSet j = if j = h'.cur then !b'.isEmpty else h'.filled.isSet j) (n : Nat) :
+    RCore c (afterTake h' b' fl n) none (some (afterTake h' b' fl n).cur) := by
+  have hB : h'.cur < h'.buckets.size := by rw [hcore.nbB]; exact hN
+  have hbk : ∀ i, (afterTake h' b' fl n).bk i = if i = h'.cur then b' else h'.bk i := by
+    intro i
+    show (h'.buckets.set! h'.cur b').getD i #[] = _
+    rw [getD_set!]
+    by_cases e : h'.cur = i
+    · rw [if_pos ⟨e, hB⟩, if_pos e.symm]
+    · rw [if_neg (fun hh => e hh.1), if_neg (fun e' => e e'.symm)]; rfl
+  -- every element of the current bucket has the same rank
+  have hsame : ∀ u ∈ h'.bk h'.cur, ∀ w ∈ h'.bk h'.cur, rk c u = rk c w := by
+    intro u hu w hw
+    obtain ⟨u1, u2⟩ := hcore.el h'.cur hN (by simp) u hu
+    obtain ⟨w1, w2⟩ := hcore.el h'.cur hN (by simp) w hw
+    exact bucketOf_row0 c hrb h'.limit _ _ u1 w1 (by rw [u2, w2]) (by rw [u2]; exact hcore.curR)
+  obtain ⟨v0, hv0, hv0m⟩ := hcore.mnIn h'.cur hN hne
+  refine ⟨by show (h'.buckets.set! h'.cur b').size = _; rw [size_set!, hcore.nbB], hcore.nbM,
+    by show fl.nb = _; rw [hflnb, hcore.nbF], hfl, hcore.curR, by intro s hs; cases hs; exact hcore.curR,
+    ?_, ?_, ?_, ?_, ?_, ?_⟩
+  · intro i hi'
+    show fl.isSet i = false
+    rw [hset, if_neg (by omega)]; exact hcore.flHi i hi'
+  · intro i hi' _ u hu
+    rw [hbk] at hu
+    by_cases e : i = h'.cur
+    · rw [if_pos e] at hu; subst e; exact hcore.el _ hi' (by simp) u (hsub u hu)
+    · rw [if_neg e] at hu; exact hcore.el i hi' (by simp) u hu
+  · intro i hi'
+    show fl.isSet i = _
+    rw [hset, hbk]
+    by_cases e : i = h'.cur
+    · rw [if_pos e, if_pos e]
+    · rw [if_neg e, if_neg e]; exact hcore.fl i hi'
+  · intro i hi' u hu
+    rw [hbk] at hu
+    show (h'.mn i).toNat ≤ _
+    by_cases e : i = h'.cur
+    · rw [if_pos e] at hu; subst e; exact hcore.mnLe _ hi' u (hsub u hu)
+    · rw [if_neg e] at hu; exact hcore.mnLe i hi' u hu
+  · intro i hi' hne'
+    rw [hbk] at hne' ⊢
+    show ∃ u ∈ _, rk c u = h'.mn i
+    by_cases e : i = h'.cur
+    · rw [if_pos e] at hne' ⊢
+      have hpos : 0 < b'.size := by
+        cases hb : b' with
+        | mk l => cases l with
+          | nil => rw [hb] at hne'; exact absurd rfl hne'
+          | cons x xs => simp
+      refine ⟨b'[0], Array.getElem_mem hpos, ?_⟩
+      rw [e, ← hv0m]
+      exact hsame _ (hsub _ (Array.getElem_mem hpos)) _ hv0
+    · rw [if_neg e] at hne' ⊢; exact hcore.mnIn i hi' hne'
+  · intro i hi' hem
+    rw [hbk] at hem
+    show h'.mn i = _ ∨ _
+    by_cases e : i = h'.cur
+    · right
+      obtain ⟨l, b⟩ := hcore.el h'.cur hN (by simp) v0 hv0
+      subst e
+      refine ⟨rfl, ?_, ?_⟩
+      · show h'.limit.toNat ≤ (h'.mn h'.cur).toNat; rw [← hv0m]; exact l
+      · show bucketOf c (h'.mn h'.cur) h'.limit = h'.cur; rw [← hv0m]; exact b
+    · rw [if_neg e] at hem
+      rcases hcore.mnEmpty i hi' hem with h1 | ⟨h2, h3⟩
+      · exact Or.inl h1
+      · exact Or.inr ⟨h2, h3⟩
+
+
+theorem isEmpty_eq_false_of_ne {α : Type} (b : Array α) (h : b ≠ #[]) : b.isEmpty = false := by
+  cases b with
+  | mk l => cases l with
+    | nil => exact absurd rfl h
+    | cons x xs => rfl
+
+theorem pop_spec {c : RCfg} (hrb : 0 < c.rb) (hle : c.rb ≤ c.w) (h : RH c) (fr : Option (BitVec c.w))
+    (hi : RInv c h fr) (hne : h.contents ≠ []) :
+    ∃ h' v, h.pop = some (h', v) ∧ RInv c h' (some (rk c v)) ∧ h.contents.Perm (v :: h'.contents) ∧
+      ∀ u ∈ h.contents, (rk c v).toNat ≤ (rk c u).toNat := by
+  obtain ⟨h1, e1, hp⟩ := reorganize_spec hrb hle h fr hi hne
+  have hN : h1.cur < numBuckets c := Nat.lt_of_lt_of_le hp.core.curR (radix_le_numBuckets c hrb hle)
+  have hB : h1.cur < h1.buckets.size := by rw [hp.core.nbB]; exact hN
+  obtain ⟨v, b1, b2, b3⟩ := back?_mem (h1.bk h1.cur) hp.ne
+  obtain ⟨r1, r2⟩ := rinv_after_reorg hrb h h1 fr hi hp v b2 hN
+  -- the bit array after the pop
+  have hfill : ∃ fl, (if (h1.bk h1.cur).pop.isEmpty then h1.filled.clearBit h1.cur else some h1.filled) = some fl ∧
+      fl.WF ∧ fl.nb = h1.filled.nb ∧
+      ∀ j, fl.isSet j = if j = h1.cur then !(h1.bk h1.cur).pop.isEmpty else h1.filled.isSet j := by
+    by_cases he : (h1.bk h1.cur).pop.isEmpty = true
+    · rw [if_pos he]
+      obtain ⟨fl, q1, q2, q3, q4⟩ := h1.filled.clearBit_spec hp.core.wfF h1.cur (by rw [hp.core.nbF]; exact hN)
+      refine ⟨fl, q1, q2, q3, ?_⟩
+      intro j; rw [q4]
+      by_cases e : j = h1.cur
+      · simp [e, he]
+      · simp [e]
+    · rw [if_neg he]
+      refine ⟨_, rfl, hp.core.wfF, rfl, ?_⟩
+      intro j
+      by_cases e : j = h1.cur
+      · rw [if_pos e, e, hp.core.fl h1.cur hN, isEmpty_eq_false_of_ne _ hp.ne]
+        simp at he; simp [he]
+      · rw [if_neg e]
+  obtain ⟨fl, f1, f2, f3, f4⟩ := hfill
+  have hcore2 := take_spec hrb h1 hp.core hN hp.ne (h1.bk h1.cur).pop (by
+    intro u hu
+    have h0 : u ∈ (h1.bk h1.cur).pop.toList := Array.mem_toList_iff.mpr hu
+    have : u ∈ (h1.bk h1.cur).toList := by rw [b3]; exact List.mem_append_left _ h0
+    exact Array.mem_toList_iff.mp this) fl f2 f3 f4 (h1.size - 1)
+  have hperm2 := contents_set_bucket h1 h1.cur hB (h1.bk h1.cur).pop (afterTake h1 (h1.bk h1.cur).pop fl (h1.size - 1)) rfl
+  -- contents h1 ~ v :: contents h2
+  have hperm3 : h1.contents.Perm (v :: (afterTake h1 (h1.bk h1.cur).pop fl (h1.size - 1)).contents) := by
+    rw [b3] at hperm2
+    have : ((afterTake h1 (h1.bk h1.cur).pop fl (h1.size - 1)).contents ++ ((h1.bk h1.cur).pop.toList ++ [v])).Perm
+        ((v :: (afterTake h1 (h1.bk h1.cur).pop fl (h1.size - 1)).contents) ++ (h1.bk h1.cur).pop.toList) := by
+      rw [← List.append_assoc]
+      refine (List.perm_append_singleton _ _).trans ?_
+      simp only [List.cons_append]
+      exact List.Perm.refl _
+    exact ((List.perm_append_right_iff _).mp (this.symm.trans hperm2)).symm
+  refine ⟨afterTake h1 (h1.bk h1.cur).pop fl (h1.size - 1), v, ?_, ⟨hcore2, ?_, ?_⟩, hp.perm.symm.trans hperm3, ?_⟩
+  · unfold RH.pop
+    simp only [Option.bind_eq_bind, e1, Option.bind_some, getElem?_eq_some_getD h1.buckets h1.cur #[] hB, Option.pure_def]
+    have hb : (h1.buckets.getD h1.cur #[]).back? = some v := b1
+    have hf : (if (h1.buckets.getD h1.cur #[]).pop.isEmpty = true then h1.filled.clearBit h1.cur else some h1.filled) =
+        some fl := f1
+    rw [hb]
+    simp only [Option.bind_some]
+    by_cases he : (h1.buckets.getD h1.cur #[]).pop.isEmpty = true
+    · simp only [he, if_true] at hf ⊢
+      rw [hf]; rfl
+    · simp only [he, Bool.false_eq_true, if_false] at hf ⊢
+      cases hf; rfl
+  · show h1.size - 1 = _
+    have := hperm3.length_eq
+    simp only [List.length_cons] at this
+    have hc1 := r1.cnt
+    omega
+  · have hl : (afterTake h1 (h1.bk h1.cur).pop fl (h1.size - 1)).limit = h1.limit := rfl
+    have hcu : (afterTake h1 (h1.bk h1.cur).pop fl (h1.size - 1)).cur = h1.cur := rfl
+    have := r1.frI
+    simp only at this ⊢
+    refine ⟨by rw [hl]; exact this.1, by rw [hl, hcu]; exact this.2.1, ?_⟩
+    intro u hu
+    exact r2 u (hperm3.symm.subset (List.mem_cons_of_mem _ hu))
+  · intro u hu
+    exact r2 u (hp.perm.symm.subset hu)
+
+theorem swap_spec {c : RCfg} (hrb : 0 < c.rb) (hle : c.rb ≤ c.w) (h : RH c) (fr : Option (BitVec c.w))
+    (hi : RInv c h fr) (hne : h.contents ≠ []) :
+    ∃ h' b v, h.swapTopBucket = some (h', b) ∧ v ∈ b ∧ RInv c h' (some (rk c v)) ∧
+      h.contents.Perm (b.toList ++ h'.contents) ∧
+      ∀ w ∈ b, ∀ u ∈ h.contents, (rk c w).toNat ≤ (rk c u).toNat := by
+  obtain ⟨h1, e1, hp⟩ := reorganize_spec hrb hle h fr hi hne
+  have hN : h1.cur < numBuckets c := Nat.lt_of_lt_of_le hp.core.curR (radix_le_numBuckets c hrb hle)
+  have hB : h1.cur < h1.buckets.size := by rw [hp.core.nbB]; exact hN
+  obtain ⟨v, _, b2, _⟩ := back?_mem (h1.bk h1.cur) hp.ne
+  obtain ⟨r1, r2⟩ := rinv_after_reorg hrb h h1 fr hi hp v b2 hN
+  obtain ⟨fl, q1, q2, q3, q4⟩ := h1.filled.clearBit_spec hp.core.wfF h1.cur (by rw [hp.core.nbF]; exact hN)
+  have hcore2 := take_spec hrb h1 hp.core hN hp.ne #[] (by intro u hu; simp at hu) fl q2 q3 (by
+    intro j; rw [q4]
+    by_cases e : j = h1.cur
+    · simp [e]
+    · simp [e]) (h1.size - (h1.bk h1.cur).size)
+  have hperm2 := contents_set_bucket h1 h1.cur hB #[] (afterTake h1 #[] fl (h1.size - (h1.bk h1.cur).size)) rfl
+  simp only [Array.toList_empty, List.append_nil] at hperm2
+  have hperm3 : h1.contents.Perm ((h1.bk h1.cur).toList ++ (afterTake h1 #[] fl (h1.size - (h1.bk h1.cur).size)).contents) :=
+    hperm2.symm.trans List.perm_append_comm
+  refine ⟨afterTake h1 #[] fl (h1.size - (h1.bk h1.cur).size), h1.bk h1.cur, v, ?_, b2, ⟨hcore2, ?_, ?_⟩,
+    hp.perm.symm.trans hperm3, ?_⟩
+  · unfold RH.swapTopBucket
+    simp only [Option.bind_eq_bind, e1, Option.bind_some, getElem?_eq_some_getD h1.buckets h1.cur #[] hB, q1,
+      Option.pure_def]
+    rfl
+  · show h1.size - (h1.bk h1.cur).size = _
+    have := hperm3.length_eq
+    simp only [List.length_append, Array.length_toList] at this
+    have hc1 := r1.cnt
+    omega
+  · have := r1.frI
+    simp only at this ⊢
+    refine ⟨this.1, this.2.1, ?_⟩
+    intro u hu
+    exact r2 u (hperm3.symm.subset (List.mem_append_right _ hu))
+  · intro w hw u hu
+    have := first_bucket_min hrb h1 hp.core h1.cur hp.core.curR hN hp.before w hw
+    exact this u (hp.perm.symm.subset hu)
+
+theorem peak_spec {c : RCfg} (hrb : 0 < c.rb) (h : RH c) (fr : Option (BitVec c.w))
+    (hi : RInv c h fr) (hne : h.contents ≠ []) :
+    ∃ k v, h.peakTopKey = some k ∧ v ∈ h.contents ∧ v.1 = k ∧
+      ∀ u ∈ h.contents, (rk c v).toNat ≤ (rk c u).toNat := by
+  have hc := hi.core
+  have hsz : ¬ h.size = 0 := by
+    rw [hi.cnt]; intro e; exact hne (List.eq_nil_of_length_eq_zero e)
+  -- some bucket is non-empty
+  have hex : ∃ j, h.filled.isSet j = true := by
+    cases hcs : h.contents with
+    | nil => exact absurd hcs hne
+    | cons v rest =>
+      have hv : v ∈ h.contents := by rw [hcs]; simp
+      obtain ⟨j, hj, hvj⟩ := (mem_contents_bk h hc v).mp hv
+      refine ⟨j, ?_⟩
+      rw [isSet_iff_ne h hc j]
+      intro e; rw [e] at hvj; simp at hvj
+  cases hfind : h.filled.findLsb with
+  | none =>
+    obtain ⟨j, hj⟩ := hex
+    have := BitArr.findLsb_none h.filled hc.wfF hfind j
+    rw [this] at hj; cases hj
+  | some first =>
+    obtain ⟨hf1, hf2⟩ := (BitArr.findLsb_spec h.filled hc.wfF first).mp hfind
+    have hfne : h.bk first ≠ #[] := (isSet_iff_ne h hc first).mp hf1
+    have hfirstN : first < numBuckets c := by
+      apply Classical.byContradiction
+      intro hge
+      exact hfne (bk_eq_empty_of_ge h first (by rw [hc.nbB]; omega))
+    have hbefore : ∀ i, i < first → h.bk i = #[] := by
+      intro i hlt
+      apply Classical.byContradiction
+      intro hne'
+      have := (isSet_iff_ne h hc i).mpr hne'
+      rw [hf2 i hlt] at this; cases this
+    obtain ⟨v0, hv0, hv0m⟩ := hc.mnIn first hfirstN hfne
+    refine ⟨intAtRank c (h.mn first), v0, ?_, (mem_contents_bk h hc v0).mpr ⟨first, hfirstN, hv0⟩, ?_, ?_⟩
+    · unfold RH.peakTopKey
+      have hM : first < h.mins.size := by rw [hc.nbM]; exact hfirstN
+      simp only [Option.bind_eq_bind, hfind, Option.bind_some, getElem?_eq_some_getD h.mins first (maxRank c.w) hM,
+        Option.pure_def]
+      rw [if_neg hsz]; rfl
+    · rw [← hv0m]; exact (intAtRank_rankOfInt c v0.1).symm
+    · intro u hu
+      obtain ⟨j, hj, huj⟩ := (mem_contents_bk h hc u).mp hu
+      obtain ⟨u1, u2⟩ := hc.el j hj (by simp) u huj
+      obtain ⟨v1, v2⟩ := hc.el first hfirstN (by simp) v0 hv0
+      by_cases hjf : j = first
+      · subst hjf; rw [hv0m]; exact hc.mnLe j hj u huj
+      · have hgt : first < j := by
+          apply Classical.byContradiction
+          intro hle'
+          have : j < first := by omega
+          rw [hbefore j this] at huj; simp at huj
+        apply Classical.byContradiction
+        intro hlt
+        have := bucketOf_mono c hrb h.limit (rk c u) (rk c v0) u1 (by omega)
+        omega
+
+theorem init_rinv (c : RCfg) (hrb : 0 < c.rb) (hrb6 : c.rb ≤ 6) (hw : c.w ≤ 64) :
+    RInv c (RH.init c) none ∧ (RH.init c).contents = [] := by
+  have hbk : ∀ i, (RH.init c).bk i = #[] := by
+    intro i
+    show (Array.replicate (numBuckets c) (#[] : Array (RVal c.w))).getD i #[] = #[]
+    rw [Array.getD_eq_getD_getElem?, Array.getElem?_replicate]
+    split <;> rfl
+  have hcont : (RH.init c).contents = [] := by
+    show ((Array.replicate (numBuckets c) (#[] : Array (RVal c.w))).toList.map (·.toList)).flatten = []
+    simp
+  refine ⟨⟨⟨by simp [RH.init], by simp [RH.init], rfl, BitArr.mk'_wf _ (numBuckets_le c hrb hrb6 hw),
+    Nat.two_pow_pos c.rb, by intro s hs; cases hs; exact Nat.two_pow_pos c.rb,
+    fun i _ => BitArr.mk'_isSet _ i, ?_, ?_, ?_, ?_, ?_⟩, by rw [hcont]; rfl, ⟨rfl, rfl⟩⟩, hcont⟩
+  · intro i _ _ v hv; rw [hbk] at hv; simp at hv
+  · intro i _; show (BitArr.mk' _).isSet i = _; rw [BitArr.mk'_isSet, hbk]; rfl
+  · intro i _ v hv; rw [hbk] at hv; simp at hv
+  · intro i _ hne; exact absurd (hbk i) hne
+  · intro i hi _
+    left
+    show (Array.replicate (numBuckets c) (maxRank c.w)).getD i (maxRank c.w) = _
+    rw [Array.getD_eq_getD_getElem?, Array.getElem?_replicate]
+    split <;> rfl
+
 end TlxVerif.C13
